@@ -292,6 +292,38 @@ func targets(w *bx.World) []target {
 	}, Seeds: []bx.Seed{{Name: "response5", Msg: w.O5.Response, Fields: []bx.Field{{0, bx.VarintWidth(w.O5.Response)}}}}})
 
 	bw := bx.VarintWidth(w.BatchReq)
+	// the same decoders on an object that has already decoded (and marshalled) a SMALLER valid message:
+	// a server that keeps its request object
+	small5 := append(append([]byte{}, w.O5.Request[:3]...), 0x20)
+	small5 = append(small5, w.O5.Request[3+bx.VarintWidth(w.O5.Request[3:]):][:32]...)
+	smallInner := append(append([]byte{}, w.Inner[:257]...), 0x00, 0x20)
+	smallInner = append(smallInner, append([]byte("o"), make([]byte, 31)...)...)
+	used := func(name string, mk func() interface {
+		Unmarshal([]byte) bool
+		Marshal() []byte
+	}, first []byte, seeds []bx.Seed) {
+		add(target{Name: name + " (object used before)", Run: func(in []byte) bool {
+			o := mk()
+			if !o.Unmarshal(append([]byte{}, first...)) {
+				panic("harness: the first message does not decode: " + name)
+			}
+			_ = o.Marshal()
+			ok := o.Unmarshal(in)
+			if ok {
+				_ = o.Marshal()
+			}
+			return ok
+		}, Seeds: seeds})
+	}
+	type dec = interface {
+		Unmarshal([]byte) bool
+		Marshal() []byte
+	}
+	used("type1.Request.Unmarshal", func() dec { return new(type1.BasicPrivateTokenRequest) }, w.O1.Request, []bx.Seed{{Name: "request1", Msg: w.O1.Request, Fields: []bx.Field{{0, 2}, {2, 1}}}})
+	used("type2.Request.Unmarshal", func() dec { return new(type2.BasicPublicTokenRequest) }, w.O2.Request, []bx.Seed{{Name: "request2", Msg: w.O2.Request, Fields: []bx.Field{{0, 2}, {2, 1}}}})
+	used("type5.Request.Unmarshal", func() dec { return new(type5.BatchedPrivateTokenRequest) }, small5, []bx.Seed{{Name: "request5", Msg: w.O5.Request, Fields: []bx.Field{{0, 2}, {2, 1}, {3, bx.VarintWidth(w.O5.Request[3:])}}}})
+	used("type3.Request.Unmarshal", func() dec { return new(type3.RateLimitedTokenRequest) }, w.O3.Request, []bx.Seed{{Name: "request3", Msg: w.O3.Request, Fields: []bx.Field{{0, 2}, {83, 2}}}})
+	used("type3.InnerTokenRequest.Unmarshal", func() dec { return new(type3.InnerTokenRequest) }, smallInner, []bx.Seed{{Name: "inner", Msg: w.Inner, Fields: []bx.Field{{0, 1}, {257, 2}}}})
 	add(target{Name: "batched.Request.Unmarshal+EvaluateBatch", Step: true, Run: func(in []byte) bool {
 		r := new(batched.BatchedTokenRequest)
 		if !r.Unmarshal(in) {
